@@ -240,24 +240,27 @@ fn abbrev(m: &str) -> String {
 
 /// Plain listener-VM parse: the listener records every (rule, pos) and never stops the parse.
 fn plain_trace(opt: &[OptimizedRule], rule: &str, input: &str) -> Result<Plain, String> {
-    let rec: Arc<Mutex<Vec<(String, usize)>>> = Arc::new(Mutex::new(Vec::new()));
-    let r2 = Arc::clone(&rec);
-    let vm = pest_vm::Vm::new_with_listener(
-        opt.to_vec(),
-        Box::new(move |rule, pos| {
-            let mut g = r2.lock().unwrap_or_else(|e| e.into_inner());
-            if g.len() < 100_000 {
-                g.push((rule, pos.pos()));
-            }
-            false
-        }),
-    );
+    // The entry sequence of the parse comes from hook H3 (a guard at the very top of
+    // `Vm::parse_rule`, before the listener is consulted), not from a listener: the listener is
+    // the mechanism under test, so "every rule entry reaches the listener" must not be assumed.
+    pest::verif::enable(true);
+    pest::verif::set_cap(200_000);
+    let vm = pest_vm::Vm::new(opt.to_vec());
     let fin = catch_unwind(AssertUnwindSafe(|| match vm.parse(rule, input) {
         Ok(_) => "eof".to_string(),
         Err(e) => format!("error:{}", abbrev(&e.to_string())),
-    }))
-    .map_err(|p| vmon::pestrun::panic_message(&p))?;
-    let entries = rec.lock().unwrap_or_else(|e| e.into_inner()).clone();
+    }));
+    let events = pest::verif::take_events();
+    pest::verif::enable(false);
+    let fin = fin.map_err(|p| vmon::pestrun::panic_message(&p))?;
+    let entries: Vec<(String, usize)> = events
+        .into_iter()
+        .filter_map(|e| match e {
+            pest::verif::Event::VmRuleEnter { rule, pos } => Some((rule, pos)),
+            _ => None,
+        })
+        .take(100_000)
+        .collect();
     Ok(Plain { entries, fin })
 }
 
